@@ -59,24 +59,61 @@ func CompileAllOf(rootSchema *ischema.ISchema) {
 	}
 }
 
+// maxNestingDepth the deepest nesting of objects and arrays a compiled schema may
+// have. The scanner refuses a text which is nested deeper; inheritance can put
+// the trees of several texts on top of each other, and everything that walks the
+// compiled tree afterwards (copying for the next heir, checking, the example
+// builder) is recursive.
+const maxNestingDepth = 10000
+
 // processSchema searches the schema and processes nodes that contain the "allOf"
 // rule.
 func (c *allOfConstraintCompiler) processSchema(schem *ischema.ISchema) {
 	if node := schem.RootNode(); node != nil {
-		c.processNode(node)
+		inherits := false
+		c.processNode(node, &inherits)
+		if inherits && nestingDepth(node) > maxNestingDepth {
+			err := errs.ErrNestingTooDeep.F(maxNestingDepth)
+			panic(lexeme.NewError(node.BasisLexEventOfSchemaForNode(), err))
+		}
 	}
 }
 
+// nestingDepth returns the number of levels of the deepest node. Walks without
+// recursion.
+func nestingDepth(root ischema.Node) int {
+	type level struct {
+		node  ischema.Node
+		depth int
+	}
+	deepest := 0
+	stack := []level{{root, 1}}
+	for len(stack) > 0 {
+		l := stack[len(stack)-1]
+		stack = stack[:len(stack)-1]
+		if l.depth > deepest {
+			deepest = l.depth
+		}
+		if branchNode, ok := l.node.(ischema.BranchNode); ok {
+			for _, childNode := range branchNode.Children() {
+				stack = append(stack, level{childNode, l.depth + 1})
+			}
+		}
+	}
+	return deepest
+}
+
 // processNode recursively searches and processing nodes for the "allOf" rule.
-func (c *allOfConstraintCompiler) processNode(node ischema.Node) {
+func (c *allOfConstraintCompiler) processNode(node ischema.Node, inherits *bool) {
 	if allOf := node.Constraint(constraint.AllOfConstraintType); allOf != nil {
 		c.extend(node, allOf.(*constraint.AllOf).SchemaNames())
 		node.DeleteConstraint(constraint.AllOfConstraintType)
+		*inherits = true
 	}
 
 	if branchNode, ok := node.(ischema.BranchNode); ok {
 		for _, childNode := range branchNode.Children() {
-			c.processNode(childNode)
+			c.processNode(childNode, inherits)
 		}
 	}
 }
